@@ -4,6 +4,27 @@ import json, os
 HERE = os.path.dirname(os.path.dirname(os.path.abspath(__file__)))
 ALL = ["C%02d" % i for i in range(1, 21)]
 
+# what was added to a check's domain / oracle after its first description was written (mostly in answer to seeded changes; DESIGN.md 10.7)
+EXT = {
+ "C01": "default kinds str_odd / str_dot / float_exp / int_big; DocLines.tla (line-level emit and parse models, emit side compared with the real text).",
+ "C02": "type shapes Lit2 / LitP; return entries WITH defaults (literal, code-quoted expression, None) for interfaces of <= 1 parameter.",
+ "C04": "interfaces and parameters without any prose and the Body/Compiles clause; emit_default_doc as an axis of the configuration.",
+ "C05": "EnsurePK with key candidates by NAME; the hybrid emission is additionally read through its embedded `__table__ = Table(...)` call.",
+ "C06": "Literal shapes with digits/underscores (Lit2) and with regex-special members (LitP).",
+ "C07": "signature shape odd_defaults; bodies that are nothing but a docstring (doconly) and docstrings that re-emit as empty (types_only, blank), action GiveUp; a non-injected failure is diagnostic only.",
+ "C08": "doc kind ellipsis; hostile descriptions in the sqlalchemy / json_schema formats.",
+ "C10": "second choice point OrderedScan (which default-announcing phrase wins) with its own pinned configuration and scan inputs for three parsers x three styles.",
+ "C11": "tokens TAB / NBSP / ' or ' / ' of ' and the adhoc-type entry point; each of the three doctrans rounds is its own monitored call.",
+ "C12": "interface A2 (a strict extension of A) and D (a required parameter of a non-builtin type); equivalence up to the function format's documented `=None` normalisation.",
+ "C13": "history variable prev: an earlier call from the same input in the same process.",
+ "C14": "driver (f): generated SQLAlchemy models (class and Table, every keyword in every spelling), classes, argparse functions and JSON-schemas; entries documented beyond the signature are accepted by SigCovered.",
+ "C15": "dashed underline lines in header and footer; section kinds both / params / ret; routes docstring (with the original text), ir (from the interface alone) and function (parse + emit); clause HeaderWhole.",
+ "C16": "name shapes ending in characters of '_tbl'; RoutesDescribeModel through the real route parser.",
+ "C17": "APIs route_parse / openapi_bulk with the yaml_block slot; API gen_phase2 with the import_from slot.",
+ "C19": "mixed-kind inputs under --parse infer; ImportsCover as its own clause, judged in every cell that writes a module.",
+ "C20": "a dotted exposed module with self-naming black/white lists (the blacklist wins); history option prior (an earlier real run populated the output directory).",
+}
+
 CHECKS = {
  "C07": dict(
   category="model_checking",
@@ -326,7 +347,9 @@ def main():
              "evidence_file": "/verif/evidence/%s.json" % pid,
              "replay_cmd_template": "./check %s --replay {path}" % pid,
              "engine": "tlc",
-             "level_claimed": {"category": c["category"], "text": c["text"], "design_ref": c["design_ref"]},
+             "level_claimed": {"category": c["category"],
+                               "text": c["text"] + (" Extended since: " + EXT[pid] if pid in EXT else ""),
+                               "design_ref": c["design_ref"] + ("; section 10.7" if pid in EXT else "")},
              "level_note": c["note"],
              "technique": c["technique"],
             })
